@@ -18,6 +18,7 @@ import (
 	"io"
 	"os"
 	"runtime"
+	"strings"
 	"sync"
 	"testing"
 	"time"
@@ -33,7 +34,7 @@ type wMeta struct {
 	Mode  int64 `json:"mode"`
 	UID   int   `json:"uid"`
 	GID   int   `json:"gid"`
-	Mtime int64 `json:"mtime"` // unix seconds, 0 = none
+	Mtime int64 `json:"mtime,string"` // unix seconds (as a string in JSON: TLC integers are 32 bit); 0 = the epoch = none
 }
 
 type wEnt struct {
@@ -62,6 +63,9 @@ func buildTarMeta(ents []wEnt) ([]byte, error) {
 		if e.Meta.Mtime != 0 {
 			h.ModTime = time.Unix(e.Meta.Mtime, 0)
 		}
+		if e.Meta.Mtime < 0 || e.Meta.Mtime > 0o77777777777 {
+			h.Format = tar.FormatPAX // a time before the epoch or beyond 11 octal digits needs a PAX record
+		}
 		switch e.Type {
 		case "dir":
 			h.Typeflag = tar.TypeDir
@@ -69,6 +73,9 @@ func buildTarMeta(ents []wEnt) ([]byte, error) {
 			h.Typeflag, h.Size = tar.TypeReg, e.Size
 		case "link":
 			h.Typeflag, h.Linkname = tar.TypeLink, e.Link
+		case "xglobal": // PAX global extended header, as `git archive` writes it
+			h = &tar.Header{Typeflag: tar.TypeXGlobalHeader, Name: e.Name, Format: tar.FormatPAX,
+				PAXRecords: map[string]string{"comment": "0123456789abcdef0123456789abcdef01234567"}}
 		default:
 			return nil, fmt.Errorf("entry type %q", e.Type)
 		}
@@ -171,6 +178,14 @@ func compressorFor(c wCase) (estargz.Compressor, *externaltoc.GzipCompression) {
 	return estargz.NewGzipCompressorWithLevel(lvl), nil
 }
 
+// errClass: a refusal of an input entry type the builder does not support is an outcome of its own
+func errClass(err error) string {
+	if strings.Contains(err.Error(), "unsupported input tar entry") {
+		return "refused"
+	}
+	return "other"
+}
+
 func runWriterCase(idx int, c wCase) wEvent {
 	ev := wEvent{Ev: "Blob", Case: idx, Scheme: c.Scheme, Chunk: c.Chunk, MinCh: c.MinChunk,
 		Opt:   wOpt{Mode: c.Mode, MinOn: c.MinChunk > 0, Workers: c.Workers, Chunk: c.Chunk},
@@ -208,13 +223,13 @@ func runWriterCase(idx int, c wCase) wEvent {
 		opts = append(opts, estargz.WithChunkSize(c.Chunk), estargz.WithMinChunkSize(c.MinChunk), estargz.WithParallelism(c.Workers))
 		b, err := estargz.Build(io.NewSectionReader(bytes.NewReader(src), 0, int64(len(src))), opts...)
 		if err != nil {
-			ev.Err, ev.ErrText = "other", err.Error()
+			ev.Err, ev.ErrText = errClass(err), err.Error()
 			return ev
 		}
 		blob, err = io.ReadAll(b)
 		b.Close()
 		if err != nil {
-			ev.Err, ev.ErrText = "other", err.Error()
+			ev.Err, ev.ErrText = errClass(err), err.Error()
 			return ev
 		}
 		ev.DiffID, ev.TocDigest = b.DiffID().String(), b.TOCDigest().String()
@@ -230,12 +245,12 @@ func runWriterCase(idx int, c wCase) wEvent {
 			err = w.AppendTar(bytes.NewReader(src))
 		}
 		if err != nil {
-			ev.Err, ev.ErrText = "other", err.Error()
+			ev.Err, ev.ErrText = errClass(err), err.Error()
 			return ev
 		}
 		d, err := w.Close()
 		if err != nil {
-			ev.Err, ev.ErrText = "other", err.Error()
+			ev.Err, ev.ErrText = errClass(err), err.Error()
 			return ev
 		}
 		blob = buf.Bytes()
